@@ -43,7 +43,9 @@ pub enum CurOp {
 
 #[derive(Clone, Debug)]
 pub enum Step {
-    Commit { txn: u64, ops: Vec<WriteOp>, write_only: bool, immediate: bool },
+    /// `clock`: absolute value the logical clock is raised to before the commit (so that
+    /// removing other steps while minimising never changes this commit's timestamp)
+    Commit { txn: u64, ops: Vec<WriteOp>, write_only: bool, immediate: bool, clock: u64 },
     BeginReader { rid: usize, pending: Vec<WriteOp> },
     DropReader { rid: usize },
     OpenCursor { rid: usize, lo: Option<Vec<u8>>, hi: Option<Vec<u8>> },
@@ -58,7 +60,8 @@ pub enum Step {
     Reopen,
     Checkpoint,
     Restore,
-    AdvanceClock { by: u64 },
+    /// raise the logical clock to an absolute value
+    SetClock { to: u64 },
 }
 
 fn kind_from(s: &str) -> Kind {
@@ -99,8 +102,8 @@ fn optkey_from(j: &J) -> Option<Vec<u8>> {
 impl Step {
     pub fn to_json(&self) -> J {
         match self {
-            Step::Commit { txn, ops, write_only, immediate } => {
-                json!({"op":"commit","txn":txn,"ops":ops.iter().map(wop_json).collect::<Vec<_>>(),"write_only":write_only,"immediate":immediate})
+            Step::Commit { txn, ops, write_only, immediate, clock } => {
+                json!({"op":"commit","txn":txn,"ops":ops.iter().map(wop_json).collect::<Vec<_>>(),"write_only":write_only,"immediate":immediate,"clock":clock})
             }
             Step::BeginReader { rid, pending } => {
                 json!({"op":"begin_reader","rid":rid,"pending":pending.iter().map(wop_json).collect::<Vec<_>>()})
@@ -126,7 +129,7 @@ impl Step {
             Step::Reopen => json!({"op":"reopen"}),
             Step::Checkpoint => json!({"op":"checkpoint"}),
             Step::Restore => json!({"op":"restore"}),
-            Step::AdvanceClock { by } => json!({"op":"advance_clock","by":by}),
+            Step::SetClock { to } => json!({"op":"set_clock","to":to}),
         }
     }
     pub fn from_json(j: &J) -> Option<Step> {
@@ -137,6 +140,7 @@ impl Step {
                 ops: j["ops"].as_array()?.iter().map(wop_from).collect(),
                 write_only: j["write_only"].as_bool().unwrap_or(false),
                 immediate: j["immediate"].as_bool().unwrap_or(false),
+                clock: j["clock"].as_u64().unwrap_or(0),
             },
             "begin_reader" => Step::BeginReader { rid, pending: j["pending"].as_array()?.iter().map(wop_from).collect() },
             "drop_reader" => Step::DropReader { rid },
@@ -160,7 +164,7 @@ impl Step {
             "reopen" => Step::Reopen,
             "checkpoint" => Step::Checkpoint,
             "restore" => Step::Restore,
-            "advance_clock" => Step::AdvanceClock { by: j["by"].as_u64().unwrap_or(1) },
+            "set_clock" => Step::SetClock { to: j["to"].as_u64().unwrap_or(0) },
             _ => return None,
         })
     }
@@ -189,7 +193,7 @@ impl Step {
             Step::Reopen => "reopen".into(),
             Step::Checkpoint => "checkpoint".into(),
             Step::Restore => "restore".into(),
-            Step::AdvanceClock { by } => format!("clock+{}", by),
+            Step::SetClock { to } => format!("clock={}", to),
         }
     }
 }
@@ -215,6 +219,8 @@ pub struct GenParams {
     /// relative weight of placement steps (0..100)
     pub placement_pct: u64,
     pub delete_pct: u64,
+    /// mask of an open known finding: never write Replace
+    pub no_replace: bool,
 }
 
 impl Default for GenParams {
@@ -234,6 +240,7 @@ impl Default for GenParams {
             big_values: true,
             placement_pct: 35,
             delete_pct: 30,
+            no_replace: false,
         }
     }
 }
@@ -296,6 +303,7 @@ pub struct Generator<'a> {
     next_rid: usize,
     clock: u64,
     last_ts: BTreeMap<Vec<u8>, u64>,
+    used_ts: BTreeMap<Vec<u8>, BTreeSet<u64>>,
     have_checkpoint: bool,
 }
 
@@ -313,6 +321,7 @@ impl<'a> Generator<'a> {
             next_rid: 0,
             clock: 1000,
             last_ts: BTreeMap::new(),
+            used_ts: BTreeMap::new(),
             have_checkpoint: false,
         }
     }
@@ -339,7 +348,13 @@ impl<'a> Generator<'a> {
     fn write_op(&mut self, txn: u64, idx: u32, allow_ts: bool) -> WriteOp {
         let key = self.r.pick(&self.keys).clone();
         let k = self.r.below(100);
-        let kind = if k < self.p.delete_pct / 2 {
+        let kind = if self.p.out_of_order_ts && k < self.p.delete_pct {
+            if k < self.p.delete_pct / 2 {
+                Kind::SoftDelete
+            } else {
+                Kind::Set
+            }
+        } else if k < self.p.delete_pct / 2 {
             Kind::Delete
         } else if k < self.p.delete_pct * 3 / 4 {
             Kind::SoftDelete
@@ -348,19 +363,28 @@ impl<'a> Generator<'a> {
         } else {
             Kind::Set
         };
+        let kind = if kind == Kind::Replace && self.p.no_replace { Kind::Set } else { kind };
         let len = self.value_len();
         let value = if kind.is_tombstone() { vec![] } else { crate::model::mk_value(self.seed, txn, idx, len) };
         let mut ts = None;
         if allow_ts && self.p.explicit_ts && kind != Kind::Replace && self.r.chance(1, 3) {
-            let last = *self.last_ts.get(&key).unwrap_or(&1);
+            // strictly increasing per key (two versions of one key never share a timestamp: the
+            // property lets ties resolve either way, so collisions would not be decidable);
+            // the out-of-order campaign draws any unused earlier stamp instead
+            let last = *self.last_ts.get(&key).unwrap_or(&0);
+            let used = self.used_ts.entry(key.clone()).or_default();
             let t = if self.p.out_of_order_ts && self.r.chance(1, 3) {
-                self.r.range(1, self.clock)
+                let c = self.r.range(1, self.clock);
+                if used.contains(&c) { None } else { Some(c) }
+            } else if last + 1 <= self.clock {
+                Some(self.r.range(last + 1, self.clock))
             } else {
-                self.r.range(last.min(self.clock), self.clock)
+                None
             };
-            ts = Some(t.max(1));
+            ts = t;
         }
         let eff = ts.unwrap_or(self.clock);
+        self.used_ts.entry(key.clone()).or_default().insert(eff);
         let e = self.last_ts.entry(key.clone()).or_insert(0);
         if eff > *e {
             *e = eff;
@@ -387,14 +411,13 @@ impl<'a> Generator<'a> {
                 ops.push(w);
             }
         }
-        Step::Commit { txn, ops, write_only: self.r.chance(1, 4), immediate: self.r.chance(1, 8) }
+        Step::Commit { txn, ops, write_only: self.r.chance(1, 4), immediate: self.r.chance(1, 8), clock: self.clock }
     }
 
     pub fn generate(&mut self) -> Vec<Step> {
         let mut steps = Vec::new();
         // warm-up: a few commits so there is something to place
         for _ in 0..self.r.range(2, 6) {
-            steps.push(Step::AdvanceClock { by: 1 });
             steps.push(self.commit_step());
         }
         while steps.len() < self.p.steps {
@@ -431,7 +454,7 @@ impl<'a> Generator<'a> {
             if self.p.clock_advance && x < self.p.placement_pct + 8 {
                 let by = self.r.range(1, 400);
                 self.clock += by;
-                steps.push(Step::AdvanceClock { by });
+                steps.push(Step::SetClock { to: self.clock });
                 continue;
             }
             if self.p.readers && x < self.p.placement_pct + 30 {
@@ -494,7 +517,6 @@ impl<'a> Generator<'a> {
                 }
                 continue;
             }
-            steps.push(Step::AdvanceClock { by: 1 });
             steps.push(self.commit_step());
         }
         steps
@@ -684,7 +706,7 @@ impl Exec {
         })
     }
 
-    fn tree(&self) -> &Tree {
+    pub fn tree(&self) -> &Tree {
         self.tree.as_ref().unwrap()
     }
 
@@ -770,15 +792,16 @@ impl Exec {
         overlay_scan(&self.model, &r.pending, lo.as_deref(), hi.as_deref(), r.horizon)
     }
 
-    async fn step(&mut self, s: &Step) -> Result<(), Violation> {
+    pub async fn step(&mut self, s: &Step) -> Result<(), Violation> {
         match s {
-            Step::AdvanceClock { by } => {
-                self.clock.0.fetch_add(*by, Ordering::SeqCst);
+            Step::SetClock { to } => {
+                self.clock.0.fetch_max(*to, Ordering::SeqCst);
             }
-            Step::Commit { txn, ops, write_only, immediate } => {
+            Step::Commit { txn, ops, write_only, immediate, clock } => {
                 if ops.is_empty() {
                     return Ok(());
                 }
+                self.clock.0.fetch_max(*clock, Ordering::SeqCst);
                 let before = self.tree().verif_visible_seq();
                 let mut t = match self.tree().begin_with_mode(if *write_only { Mode::WriteOnly } else { Mode::ReadWrite }) {
                     Ok(t) => t,
@@ -1434,11 +1457,16 @@ impl Exec {
                 viol!(self, "history", "{desc}: entry ({}, seq {}) has ts {} tomb {} len {} but was written with ts {} kind {} len {}", hex(k), seq, ts, tomb, v.len(), e.ts, e.kind.name(), e.value.len());
             }
         }
-        // 2. order: keys monotone, within a key timestamps monotone (ties in any order)
+        // 2. order: keys monotone, within a key timestamps monotone (ties in any order). For a
+        // key whose timestamps were written out of order (index back-end only) "newest first"
+        // is not pinned down by the property: only the key order is checked there.
+        let out_of_order_key = |k: &Vec<u8>| -> bool {
+            self.model.keys.get(k).map(|vs| vs.windows(2).any(|w| w[1].ts < w[0].ts)).unwrap_or(false)
+        };
         for w in got.windows(2) {
             let (a, b) = (&w[0], &w[1]);
             let key_ok = if backward { a.0 >= b.0 } else { a.0 <= b.0 };
-            let ts_ok = a.0 != b.0 || if backward { a.2 <= b.2 } else { a.2 >= b.2 };
+            let ts_ok = a.0 != b.0 || out_of_order_key(&a.0) || if backward { a.2 <= b.2 } else { a.2 >= b.2 };
             if !key_ok || !ts_ok {
                 viol!(self, "history", "{desc}: order broken between ({},ts{}) and ({},ts{}): [{}]", hex(&a.0), a.2, hex(&b.0), b.2, show(got));
             }
@@ -1465,7 +1493,8 @@ impl Exec {
                 if got.len() > l {
                     viol!(self, "history", "{desc}: returned {} entries, more than the limit", got.len());
                 }
-                if self.cfg.retention == 0 && !has_ties {
+                let any_out_of_order = full.iter().any(|e| out_of_order_key(&e.key));
+                if self.cfg.retention == 0 && !has_ties && !any_out_of_order {
                     let exp: Vec<_> = full.iter().take(l).map(|e| (e.key.clone(), e.seq)).collect();
                     let g: Vec<_> = got.iter().map(|x| (x.0.clone(), x.1)).collect();
                     if exp != g {
